@@ -28,7 +28,7 @@ def subimage(ctx, det, center, shape):
 
 @op('points_from_grid')
 def points_from_grid(ctx, det, perm_seed, k=None, optics_from=True,
-                     tilt=None, only=None, spread=None):
+                     tilt=None, only=None, spread=None, as_float=False):
     """detector_points listing (a subset of) the grid's coordinates in a
     seeded permutation (local RandomState)."""
     import holopy as hp
@@ -50,6 +50,9 @@ def points_from_grid(ctx, det, perm_seed, k=None, optics_from=True,
         zz = zz - 10 ** np.random.RandomState(spread).uniform(
             -1, 2.7, size=len(zz))
     xo, yo = xs[order], ys[order]
+    if as_float:
+        # the same locations written as floating-point numbers
+        xo, yo = xo.astype(float), yo.astype(float)
     if only is not None:
         sel = [i % len(xo) for i in only]
         xo, yo, zz = xo[sel], yo[sel], zz[sel]
